@@ -133,10 +133,10 @@ PROPS["C07"] = dict(streams=[EVIDENCE], rule=PROV_RULE + "; evidence stream: REA
 # C18: the provider streams again, every BeginBlock / EndBlock first executed 3 times on throw-away
 # branches of the same state and compared byte for byte (store contents, returned updates, packet
 # bytes, environment calls)
-PROPS["C18"]["streams"] = PROPS["C18"]["streams"] + [dict(name="slash@r3", quick=(3, 500), thorough=(12, 3000)),
-                                                     dict(name="epoch@r3", quick=(3, 400), thorough=(12, 2500)),
-                                                     dict(name="rewards@r3", quick=(2, 300), thorough=(8, 2000)),
-                                                     dict(name="consumer@r3", quick=(3, 800), thorough=(12, 4000))]
+PROPS["C18"]["streams"] = PROPS["C18"]["streams"] + [dict(name="slash@r3", quick=(3, 500), thorough=(8, 1200)),
+                                                     dict(name="epoch@r3", quick=(3, 400), thorough=(8, 1000)),
+                                                     dict(name="rewards@r3", quick=(2, 300), thorough=(6, 1000)),
+                                                     dict(name="consumer@r3", quick=(3, 800), thorough=(8, 3000))]
 PROPS["C18"]["fields"] = r"^accum\.|^(begin|end)\.rep|^cons\.cend\.rep"
 
 # more consumers due at once than the per-block limit of the three time queues (launch, infraction
